@@ -1,4 +1,4 @@
-\* quick 2/4: two clients x 1 message, pool of 2, echo replies, repaired pool: every invariant
+\* quick: two clients x 1 message, pool of 2, repaired pool: every invariant
 CONSTANTS
   c1 = c1
   c2 = c2
@@ -11,7 +11,7 @@ CONSTANTS
   MaxPings = 0
   Workers <- WS2
   Heartbeat = FALSE
-  Reply <- ReplyUni
+  Reply <- ReplyNone
   ExtScript <- ExtNone
   Mode = "free"
   ShutdownMode = "any"
@@ -19,5 +19,6 @@ CONSTANTS
 INIT Init
 NEXT Next
 SYMMETRY Sym
+VIEW MCView
 INVARIANTS TypeOK CurInStreams DispatchInvs InvocationInvs DeliveryInvs QuiescentComplete
 CHECK_DEADLOCK FALSE
